@@ -40,7 +40,7 @@ class Shell(Op):
 
     def setup(self, ctx, st, w, k):
         lens = self.kw.get('lens', (2, 1))
-        outs = [ctx.bytes('out', n) if n else b'' for n in lens]
+        outs = [(ctx.bytes('out', n) if n <= 32 else sym_content(ctx, 'out', n, [0, 1, n // 2, n - 1])) if n else b'' for n in lens]
         self.cmd = 'cmd%d' % k
         st.shell_outs[self.prefix + self.cmd.encode()] = outs
         return outs
